@@ -279,9 +279,13 @@ func c08Overlap(t *testing.T, run *Run, idx int, rng *rand.Rand) {
 		w.GoReq(T-100*time.Millisecond+time.Duration(i)*time.Millisecond+OffArrival, Req{ID: fmt.Sprintf("slow%d", i), Host: "c08.example", Path: "/slow", Lat: lat + OffTarget})
 	}
 	recs := make([]*CmdRec, len(kinds))
+	at := T
 	for i, k := range kinds {
 		i, k := i, k
-		w.At(T+time.Duration(i)*time.Duration(200+rng.IntN(300))*time.Millisecond, func() {
+		if i > 0 {
+			at += time.Duration(200+rng.IntN(300)) * time.Millisecond // issued in this order: the last one is the one in force
+		}
+		w.At(at, func() {
 			if k == "pause" {
 				recs[i] = w.Pause(svc, 10*time.Second, 100*time.Second)
 			} else {
